@@ -1,7 +1,7 @@
 (* C17 — Fortran sources: comment/continuation handling and preprocessor
    conditionals.  Statements only. *)
 From Coq Require Import Bool Ascii String List.
-From CBI Require Import Lib.Res Lib.Data Model.C01 Spec.C01 Model.C17 Spec.C17 Proofs.C17d Proofs.C17e.
+From CBI Require Import Lib.Res Lib.Data Model.C01 Spec.C01 Model.C17 Spec.C17 Proofs.C17c Proofs.C17d Proofs.C17e Proofs.C17f.
 Import ListNotations.
 Local Open Scope string_scope.
 
@@ -49,6 +49,29 @@ Theorem C17_directives_as_C :
       (forall x, In x F -> fdir x = false -> f_cat x = SRC).
 Proof. exact directives_pass_through. Qed.
 Print Assumptions C17_directives_as_C.
+
+(* ... and those are the directive lines of THE C PATH.  The directives-only
+   pass and the ordinary C pass (c_file_source as used for .c files) are the
+   same function on every text that has no backslash, no / on a # line, and
+   whose other lines hold no / ' or double quote: *)
+Theorem C17_directives_only_is_C_scanner :
+  forall ls : list pline, cwf ls = true -> inert ls = true -> c_source false ls = c_source true ls.
+Proof. exact c_source_flag. Qed.
+Print Assumptions C17_directives_only_is_C_scanner.
+
+(* Fortran statements do hold quotes and slashes; they are inert for the
+   directives-only pass.  [mask] replaces each of them, on non-directive lines
+   only, by a letter.  For every well-formed Fortran text the directive logical
+   lines the parser receives are, in order, with identical physical lines and
+   identical text, the directive lines that the ORDINARY C scanner finds in the
+   masked text. *)
+Theorem C17_directives_as_C_path :
+  forall ls : list pline, wf ls = true ->
+    exists F Lc, f_source ls = Ok F /\ c_source false (mask ls) = Ok Lc /\
+      filter fdir F = map fll_of_cll (filter cdir Lc) /\
+      (forall x, In x F -> fdir x = false -> f_cat x = SRC).
+Proof. exact fortran_directives_as_C_path. Qed.
+Print Assumptions C17_directives_as_C_path.
 
 (* ... so that C01 applies verbatim: whatever DirectiveParser makes of the
    text of a # line ([recog], the same function for every language), the node
